@@ -25,7 +25,7 @@ def c07_struct(tier="quick", seed=0):
         "jumps-to-catch": "frame.ip = catch_ip" in src and "frame = self.call_stack[-1]" in src,
         "pushes-thrown-value-unchanged": "self.stack.append(exc)" in src,
         "abandons-native-frames": "if self._native_entry and frame_idx < self._native_entry[-1]:" in src and "raise NativeUnwind()" in src,
-        "uncaught-becomes-JSError": src.count("raise JSError(") >= 3,
+        "uncaught-becomes-JSError": (src.count("raise JSError(") >= 3 or src.count("error = JSError(") >= 3) and ("error.value = exc" in src or "raise JSError(" in src),
     }
     # order: state change before the NativeUnwind signal
     i1, i2 = src.find("self.stack.append(exc)"), src.find("raise NativeUnwind()")
